@@ -1,1 +1,299 @@
-fn main(){ println!("hi"); }
+//! rws-sim: deterministic simulation with fault injection for rws. See /verif/DESIGN.md.
+
+mod evidence;
+mod gen;
+mod oracle;
+mod outcome;
+mod rt;
+mod runner;
+mod scenario;
+mod shrink;
+mod tree;
+mod util;
+mod world;
+
+use gen::{Budget, Tier};
+use outcome::*;
+use scenario::Scenario;
+use std::collections::BTreeMap;
+use std::path::{Path, PathBuf};
+use std::time::{Duration, Instant};
+
+pub const VERIF_DIR: &str = "/verif";
+
+fn usage() -> ! {
+    eprintln!("usage: rws-sim check <Cxx> [--tier quick|thorough] [--seed N] [--workers W] [--budget SECONDS]");
+    eprintln!("       rws-sim replay <file> [--trace]");
+    eprintln!("       rws-sim selftest [--runs N]");
+    std::process::exit(2);
+}
+
+struct Args {
+    cmd: String,
+    pos: Vec<String>,
+    opts: BTreeMap<String, String>,
+}
+
+fn parse_args() -> Args {
+    let mut a = std::env::args().skip(1);
+    let cmd = a.next().unwrap_or_else(|| usage());
+    let mut pos = vec![];
+    let mut opts = BTreeMap::new();
+    let rest: Vec<String> = a.collect();
+    let mut i = 0;
+    while i < rest.len() {
+        if let Some(k) = rest[i].strip_prefix("--") {
+            if k == "trace" {
+                opts.insert(k.to_string(), "1".to_string());
+                i += 1;
+            } else {
+                let v = rest.get(i + 1).cloned().unwrap_or_else(|| usage());
+                opts.insert(k.to_string(), v);
+                i += 2;
+            }
+        } else {
+            pos.push(rest[i].clone());
+            i += 1;
+        }
+    }
+    Args { cmd, pos, opts }
+}
+
+pub fn scratch_base() -> PathBuf {
+    let t = std::env::var("TMPDIR").unwrap_or_else(|_| "/tmp".to_string());
+    PathBuf::from(t).join(format!("rws-sim-{}", std::process::id()))
+}
+
+pub struct CheckCfg {
+    pub prop: String,
+    pub tier: Tier,
+    pub seed: u64,
+    pub workers: usize,
+    pub budget_s: u64,
+}
+
+/// Run all campaigns of a check on `workers` forked worker processes and merge what they found.
+pub fn run_campaigns(cfg: &CheckCfg, scratch: &Path) -> Result<Agg, String> {
+    let plan = gen::plan(&cfg.prop, cfg.tier, cfg.seed).ok_or_else(|| format!("unknown property {}", cfg.prop))?;
+    let total_weight: u32 = plan.iter().map(|c| if let Budget::Time(w) = c.budget { w } else { 0 }).sum();
+    let mut pids = vec![];
+    std::fs::create_dir_all(scratch).map_err(|e| e.to_string())?;
+    for w in 0..cfg.workers {
+        let pid = unsafe { libc::fork() };
+        if pid < 0 {
+            return Err("fork failed".into());
+        }
+        if pid == 0 {
+            let mut agg = Agg::default();
+            let mut ctx = runner::RunCtx::new(scratch.join(format!("w{}", w)));
+            ctx.manifest = cfg.prop == "C13";
+            for c in &plan {
+                let deadline = match c.budget {
+                    Budget::Count(_) => None,
+                    Budget::Time(wt) => Some(Instant::now() + Duration::from_millis(cfg.budget_s * 1000 * wt as u64 / total_weight.max(1) as u64)),
+                };
+                let mut idx = w as u64;
+                let mut kept = 0;
+                loop {
+                    match c.budget {
+                        Budget::Count(n) => {
+                            if idx >= n {
+                                break;
+                            }
+                        }
+                        Budget::Time(_) => {
+                            if Instant::now() >= deadline.unwrap() {
+                                break;
+                            }
+                        }
+                    }
+                    let sc = (c.gen)(idx);
+                    let out = runner::run_one(&mut ctx, &sc);
+                    if kept < 1 && w < 6 && out.evaluated && out.events > 8 {
+                        agg.samples.push(evidence::sample(&sc, &out));
+                        kept += 1;
+                    }
+                    agg.add(&sc, &out);
+                    idx += cfg.workers as u64;
+                }
+                if c.exhaustive && !agg.exhaustive_campaigns.contains(&c.name.to_string()) {
+                    agg.exhaustive_campaigns.push(c.name.to_string());
+                }
+            }
+            tree::remove_all(&ctx.base);
+            let path = scratch.join(format!("agg-{}.json", w));
+            let ok = serde_json::to_vec(&agg).ok().and_then(|j| std::fs::write(&path, j).ok()).is_some();
+            unsafe { libc::_exit(if ok { 0 } else { 5 }) };
+        }
+        pids.push(pid);
+    }
+    let mut agg = Agg::default();
+    for (w, pid) in pids.iter().enumerate() {
+        let mut status = 0;
+        unsafe { libc::waitpid(*pid, &mut status, 0) };
+        if !libc::WIFEXITED(status) || libc::WEXITSTATUS(status) != 0 {
+            return Err(format!("worker process {} failed (status {})", w, status));
+        }
+        let path = scratch.join(format!("agg-{}.json", w));
+        let data = std::fs::read(&path).map_err(|e| format!("{:?}: {}", path, e))?;
+        let a: Agg = serde_json::from_slice(&data).map_err(|e| format!("{:?}: {}", path, e))?;
+        agg.merge(a);
+    }
+    Ok(agg)
+}
+
+fn tier_of(s: &str) -> Tier {
+    match s {
+        "quick" => Tier::Quick,
+        "thorough" => Tier::Thorough,
+        _ => usage(),
+    }
+}
+
+fn cmd_check(args: &Args) -> i32 {
+    let prop = args.pos.get(0).cloned().unwrap_or_else(|| usage());
+    let tier = tier_of(
+        &args.opts.get("tier").cloned().or_else(|| std::env::var("VERIF_TIER").ok().filter(|s| !s.is_empty())).unwrap_or_else(|| "quick".into()),
+    );
+    let seed: u64 = args
+        .opts
+        .get("seed")
+        .cloned()
+        .or_else(|| std::env::var("VERIF_SEED").ok().filter(|s| !s.is_empty()))
+        .and_then(|s| s.parse().ok())
+        .unwrap_or(1);
+    let workers: usize = args.opts.get("workers").and_then(|s| s.parse().ok()).or_else(|| std::env::var("VERIF_WORKERS").ok().and_then(|s| s.parse().ok())).unwrap_or(16);
+    let budget_s: u64 = args.opts.get("budget").and_then(|s| s.parse().ok()).or_else(|| std::env::var("VERIF_BUDGET_S").ok().and_then(|s| s.parse().ok())).unwrap_or(300);
+    let cfg = CheckCfg { prop: prop.clone(), tier, seed, workers, budget_s };
+    let started = Instant::now();
+    println!("rws-sim check {} tier={:?} VERIF_SEED={} workers={}", prop, tier, seed, workers);
+    let scratch = scratch_base();
+    let result = run_campaigns(&cfg, &scratch);
+    let agg = match result {
+        Ok(a) => a,
+        Err(e) => {
+            tree::remove_all(&scratch);
+            eprintln!("HARNESS-ERROR: {}", e);
+            return 2;
+        }
+    };
+    let code = evidence::conclude(&cfg, agg, &scratch, started);
+    tree::remove_all(&scratch);
+    code
+}
+
+fn cmd_replay(args: &Args) -> i32 {
+    let file = args.pos.get(0).cloned().unwrap_or_else(|| usage());
+    let data = match std::fs::read(&file) {
+        Ok(d) => d,
+        Err(e) => {
+            eprintln!("HARNESS-ERROR: cannot read {}: {}", file, e);
+            return 2;
+        }
+    };
+    let rf: evidence::ReplayFile = match serde_json::from_slice(&data) {
+        Ok(r) => r,
+        Err(e) => {
+            eprintln!("HARNESS-ERROR: cannot parse {}: {}", file, e);
+            return 2;
+        }
+    };
+    let scratch = scratch_base();
+    let mut ctx = runner::RunCtx::new(scratch.join("replay"));
+    ctx.trace = args.opts.contains_key("trace");
+    ctx.manifest = rf.scenario.property == "C13";
+    println!("replaying {} (property {}, class {}, VERIF_SEED {})", file, rf.property, rf.class, rf.seed);
+    let out = runner::run_one(&mut ctx, &rf.scenario);
+    tree::remove_all(&scratch);
+    if let Some(t) = &out.trace {
+        for l in t {
+            println!("{}", l);
+        }
+    }
+    if let Some(h) = &out.harness_error {
+        eprintln!("HARNESS-ERROR: {}", h);
+        return 2;
+    }
+    let same = out.verdicts.iter().find(|v| v.class == rf.class);
+    match same {
+        Some(v) => {
+            println!("reproduced: {} -- {}", v.class, v.detail);
+            if out.sig != rf.sig {
+                eprintln!("HARNESS-ERROR: violation reproduced but the event-log hash differs ({:016x} vs {:016x}): nondeterminism", out.sig, rf.sig);
+                return 2;
+            }
+            println!("event-log hash {:016x} identical to the recorded run", out.sig);
+            println!("VIOLATION property={} replay={}", rf.property, file);
+            1
+        }
+        None => {
+            println!("not reproduced on this tree: the recorded violation class {} did not occur (end: {}, other verdicts: {:?})", rf.class, out.end, out.verdicts.iter().map(|v| &v.class).collect::<Vec<_>>());
+            0
+        }
+    }
+}
+
+/// Determinism self-test: the same seeds twice, with different worker counts and scratch paths.
+fn cmd_selftest(args: &Args) -> i32 {
+    let runs: u64 = args.opts.get("runs").and_then(|s| s.parse().ok()).unwrap_or(400);
+    let props: Vec<String> = match args.pos.get(0) {
+        Some(p) => vec![p.clone()],
+        None => evidence::CLAIMED.iter().map(|s| s.to_string()).collect(),
+    };
+    let mut bad = 0;
+    for prop in props {
+        let plan = match gen::plan(&prop, Tier::Quick, 1) {
+            Some(p) => p,
+            None => continue,
+        };
+        let mut mism = 0u64;
+        let mut total = 0u64;
+        let base_a = scratch_base().join("selftest-a");
+        let base_b = scratch_base().join("other").join("selftest-b-longer-path");
+        let mut ca = runner::RunCtx::new(base_a.clone());
+        let mut cb = runner::RunCtx::new(base_b.clone());
+        for c in &plan {
+            let n = match c.budget {
+                Budget::Count(n) => n.min(runs),
+                Budget::Time(_) => runs,
+            };
+            for i in 0..n {
+                let idx = i * 7 + 3;
+                let sc = (c.gen)(idx % match c.budget { Budget::Count(n) => n, _ => u64::MAX });
+                let a = runner::run_one(&mut ca, &sc);
+                let b = runner::run_one(&mut cb, &sc);
+                total += 1;
+                let va: Vec<&String> = a.verdicts.iter().map(|v| &v.class).collect();
+                let vb: Vec<&String> = b.verdicts.iter().map(|v| &v.class).collect();
+                if a.sig != b.sig || va != vb || a.end != b.end {
+                    mism += 1;
+                    if mism <= 3 {
+                        eprintln!("NONDETERMINISM {} {}#{}: sig {:016x} vs {:016x}, end {} vs {}, verdicts {:?} vs {:?}", prop, c.name, sc.index, a.sig, b.sig, a.end, b.end, va, vb);
+                    }
+                }
+            }
+        }
+        tree::remove_all(&scratch_base());
+        println!("selftest {}: {} scenarios run twice (two scratch paths), {} mismatches", prop, total, mism);
+        bad += mism;
+    }
+    if bad > 0 {
+        2
+    } else {
+        0
+    }
+}
+
+fn main() {
+    let args = parse_args();
+    let code = match args.cmd.as_str() {
+        "check" => cmd_check(&args),
+        "replay" => cmd_replay(&args),
+        "selftest" => cmd_selftest(&args),
+        _ => usage(),
+    };
+    std::process::exit(code);
+}
+
+#[allow(dead_code)]
+fn _unused(_: &Scenario) {}
